@@ -77,7 +77,7 @@ class Gen:
         self.cmd_used = set()
         self.stats = {"tables": 0, "opts": 0, "types": [0] * 5, "cmdline": 0, "spoof": 0, "env": 0, "cfg": 0,
                       "words": 0, "abbrev": 0, "cluster": 0, "eqform": 0, "unknown": 0, "malformed": 0,
-                      "badvalue": 0, "dashdash": 0, "plus_words": 0, "cfg_missing_arg": 0, "reuse": 0}
+                      "badvalue": 0, "dashdash": 0, "plus_words": 0, "cfg_missing_arg": 0, "reuse": 0, "reordered": 0}
 
     # ---------------------------------------------------------------- table
     def table(self, case_id):
@@ -578,6 +578,13 @@ class Gen:
                 ncmd = nenv = 0
                 self.stats["reuse"] += 1
         ops += ["verify", "dump"]
+        if rng.random() < 0.15:
+            # the same sources again in another order on the re-used object (processing order = precedence)
+            srcs = [o for o in ops[sticky:] if o.split()[0] in ("cmdline", "spoof", "env", "cfg")]
+            if "reuse" not in ops and len(srcs) >= 2:
+                srcs = srcs[::-1] if rng.random() < 0.5 else rng.sample(srcs, len(srcs))
+                ops += ["reuse"] + srcs + ["verify", "dump"]
+                self.stats["reordered"] += 1
         return {"name": "gen%d" % cid, "ops": ops, "sticky": sticky}
 
 
@@ -612,7 +619,7 @@ class C14(Prop):
         "same_source_twice_is_usage_error", "set_after_toggle_by_same_source_is_usage_error",
         "set_option_spec", "toggle_switches_others_off", "optlist_element_denotes_named_option", "optlist_reads_back_names",
         "abbrev_full_name_resolves", "abbrev_resolves_iff_unique", "abbrev_ambiguous_iff_two", "abbrev_unknown_iff",
-        "dashdash_ends_options", "first_nonoption_ends_options", "options_end_where_documented", "plus_word_is_argument", "args_returned_in_order", "getArg_is_argv_from_optind",
+        "dashdash_ends_options", "first_nonoption_ends_options", "options_end_where_documented", "remaining_args_in_order", "plus_word_is_argument", "args_returned_in_order", "getArg_is_argv_from_optind",
         "every_history_ends_cleanly", "cmdline_ends_cleanly", "spoof_ends_cleanly", "environment_ends_cleanly", "configfile_ends_cleanly",
         "setting_succeeds_iff", "integer_argument_syntax", "rejected_setting_changes_nothing", "unknown_long_option", "ambiguous_long_option", "argument_to_flag",
         "missing_argument_long", "unknown_short_option", "verifyConfig_ok_iff_consistent",
@@ -651,6 +658,7 @@ class C14(Prop):
     def __init__(self):
         self._stats = {}
         self._out_stats = {}
+        self._samples = []
 
     # ------------------------------------------------------------------ corpus
     def corpus(self, ctx):
@@ -730,6 +738,11 @@ class C14(Prop):
 
     # ------------------------------------------------------------------ monitors (on implementation output only)
     def monitor(self, ctx, case, out):
+        if len(self._samples) < 3 and case.get("name", "").startswith("gen") and self.nontrivial(case, out) and len(case["ops"]) < 16:
+            try:
+                self._samples.append(self.readable(case, out))
+            except Exception:
+                pass
         cmd_failed = False
         for op, l in zip(case["ops"], out):
             w = op.split()[0]
@@ -815,8 +828,39 @@ class C14(Prop):
         m = re.search(r"opts=(\S*)$", last)
         return bool(oksrc and m and any(f.split("/")[1] != "0" for f in m.group(1).split(";") if f.count("/") == 3))
 
+    @staticmethod
+    def readable(case, out):
+        """a case written out for a reader: decoded table, decoded sources, implementation answers"""
+        table, steps = [], []
+        for op, l in zip(case["ops"], out):
+            w = op.split()
+            kv = dict(x.split("=", 1) for x in w[1:] if "=" in x)
+            if w[0] == "opt":
+                table.append({"name": unhx(kv["name"]), "type": ["NONE", "INT", "REAL", "CHAR", "STRING", "INFILE", "OUTFILE"][int(kv["type"])],
+                              "default": unhx(kv["def"]), "env": unhx(kv["env"]), "range": unhx(kv["range"]),
+                              "toggle": unhx(kv["tog"]), "required": unhx(kv["req"]), "incompat": unhx(kv["inc"])})
+            elif w[0] == "cmdline":
+                steps.append({"cmdline": [unhx(x) for x in kv.get("w", "").split(",") if x], "->": l})
+            elif w[0] == "spoof":
+                steps.append({"spoof": unhx(kv.get("s", "~")), "->": l})
+            elif w[0] == "env":
+                steps.append({"env": {unhx(a): unhx(b) for a, b in (p.split(":") for p in kv.get("v", "").split(",") if p)}, "->": l})
+            elif w[0] == "cfg":
+                steps.append({"cfgfile": unhx(kv.get("s", "~")), "->": l})
+            elif w[0] == "dump":
+                m = re.match(r"ok argn=(-?\d+) args=(\S*) opts=(\S*)$", l)
+                if m:
+                    steps.append({"dump": {"args": [unhx(a) for a in m.group(2).split(",") if a][:-1],
+                                           "options(value/setter/IsDefault,IsOn,IsUsed/getter)": m.group(3).split(";")}})
+            else:
+                steps.append({w[0]: l})
+        return {"name": case.get("name"), "table": table, "steps": steps}
+
     def extra_evidence(self, ctx):
-        return {"input_distribution": self._stats, "implementation_outcomes": dict(sorted(self._out_stats.items()))}
+        ev = {"input_distribution": self._stats, "implementation_outcomes": dict(sorted(self._out_stats.items()))}
+        if self._samples:
+            ev["samples"] = self._samples
+        return ev
 
 
 SPEC = C14()
